@@ -401,12 +401,12 @@ class SchemaGen(object):
         for f in rng.sample(sorted(self.field_pool), min(2, len(self.field_pool))):
             if not q.field(f):
                 q.fields.append(self.field_pool[f])
-        if rng.random() < 0.6:
+        if rng.random() < 0.6 or self.features.get("mutation"):
             m = s.add(SType("object", "Mutation" if rng.random() < 0.7 else "RootM", self.desc()))
             s.mutation = m.name
             for _ in range(rng.randint(1, 4)):
                 m.fields.append(self.gen_field(m, leafs + composite))
-        if rng.random() < 0.4:
+        if rng.random() < 0.4 or self.features.get("subscription"):
             sub = s.add(SType("object", "Subscription" if rng.random() < 0.7 else "RootS", self.desc()))
             s.subscription = sub.name
             for _ in range(rng.randint(1, 3)):
